@@ -174,3 +174,15 @@ def restored(a, keys):
     for k in keys:
         out.append((f"restore.{k}", same(st.ghost[k], st.ghost["ctx." + k])))
     return out
+
+
+# ---------------------------------------------------------------------------------------------- window.write (assumed)
+def _write_effect(a, st, res):
+    if "os.cursor" in st.ghost:
+        feed(st, a._raw["msg"] if isinstance(a._raw["msg"], str) else None)
+
+
+window_write = Contract("window:BaseWindow.write", "C12", ["self", "msg"], kind="method", shapes=[],
+                        doc="ASSUMED: out_stream.write+flush deliver msg to the terminal (ghost terminal: cursor visibility, alternate screen, main-screen writes)")
+window_write.effect = _write_effect
+window_write.assumed = True
